@@ -909,6 +909,13 @@ def explore(fn, max_paths = 100000, budget_s = None, fuel = 2000, qtimeout_ms = 
                 except Unsupported: pass
         except CheckFailed: pass
         except Infeasible: res['infeasible'] += 1
+        except FuelExhausted as e:
+            # unwinding bound hit on a feasible path: candidate non-termination, decided by a concrete replay under an alarm
+            res['complete'] = False; res['inconclusive'].append('FuelExhausted: %s' % str(e)[:200])
+            try:
+                m = c.sample_model()
+                if m is not None: c.failures.append(('does-not-terminate-within-the-unwinding-bound', m))
+            except Unsupported: pass
         except Unsupported as e:
             res['complete'] = False; res['inconclusive'].append('%s: %s' % (type(e).__name__, str(e)[:200]))
         except Exception as e:
